@@ -127,7 +127,29 @@ class Ctx:
         cases = [json.loads(l) for l in open(out) if l.strip()]
         return cases, out
 
-    def judge(self, module, cases_path, obs_path, cfg=None, timeout=3600, env=None):
+    def judge(self, module, cases_path, obs_path, cfg=None, timeout=1500, env=None):
+        """total verdict even when TLC cannot finish in time: the observations are then judged in chunks, and a chunk TLC cannot finish either
+        is rejected as a whole (clause "judge-could-not-evaluate-in-time").  On the unchanged tree the first run finishes in seconds."""
+        try:
+            return self._judge(module, cases_path, obs_path, cfg, timeout, env)
+        except tlc.TLCError:
+            pass
+        lines = [l for l in open(obs_path) if l.strip()]
+        total, bad = 0, []
+        size = 200
+        for a in range(0, len(lines), size):
+            part = obs_path + ".part"
+            with open(part, "w") as f:
+                f.writelines(lines[a:a + size])
+            try:
+                n, b = self._judge(module, cases_path, part, cfg, 120, env)
+            except (tlc.TLCError, Machinery):
+                n, b = len(lines[a:a + size]), [(json.loads(l)["cid"], "judge-could-not-evaluate-in-time") for l in lines[a:a + size]]
+            total += n
+            bad += b
+        return total, bad
+
+    def _judge(self, module, cases_path, obs_path, cfg=None, timeout=1500, env=None):
         """Hand observations to the TLA+ judge.  Returns (n_consumed, [(cid, why)]).
 
         The judges evaluate exact 32-bit integer arithmetic on what was observed; an observation so far out of range that TLC cannot
